@@ -569,7 +569,30 @@ def scan_rules(rep, sfacts):
         elif e.get('k') == 'assign':
             tgt = strip_casts(e['l'])
         args_ = [strip_casts(a) for a in e.get('args', [])] if e.get('k') == 'call' else []
-        hit = (tgt is not None and tgt.get('d') == content['d']) or \
+        # an element of the content as the target (in[i] = .., in.front() = ..), or the variable of a by-reference loop over it
+        if tgt is not None and tgt.get('k') == 'call' and tgt.get('obj') is not None and (tgt.get('callee') or '').split('::')[-1] in ('operator[]', 'at', 'front', 'back') and \
+                strip_casts(tgt['obj']).get('d') == content['d']:
+            tgt = strip_casts(tgt['obj'])
+        if tgt is not None and tgt.get('k') == 'ref':
+            for st_ in walk_stmts(cs['body']):
+                if st_['k'] == 'rangefor' and isinstance(st_.get('var'), dict) and st_['var'].get('d') == tgt.get('d') and st_['var'].get('is_ref') and \
+                        strip_casts(st_['range']).get('d') == content['d']:
+                    tgt = strip_casts(st_['range'])
+        # a standard algorithm that writes through iterators of the content
+        WRITERS = ('replace', 'replace_if', 'fill', 'fill_n', 'transform', 'sort', 'stable_sort', 'reverse', 'rotate', 'remove', 'remove_if', 'unique', 'generate',
+                   'generate_n', 'iota', 'swap_ranges', 'partition', 'stable_partition', 'shuffle', 'nth_element', 'partial_sort', 'inplace_merge', 'copy', 'copy_n',
+                   'copy_if', 'copy_backward', 'move_backward', 'for_each', 'erase', 'erase_if', 'memset', 'memcpy', 'memmove', 'strcpy', 'strncpy')
+        def _iter_of_content(a):
+            return a is not None and a.get('k') == 'call' and a.get('obj') is not None and strip_casts(a['obj']).get('d') == content['d'] and \
+                (a.get('callee') or '').split('::')[-1] in ('begin', 'end', 'data', 'rbegin', 'rend') and not a.get('method_const')
+        alg = e.get('k') == 'call' and e.get('obj') is None and (e.get('callee') or '').split('::')[-1] in WRITERS and \
+            (any(_iter_of_content(a) for a in args_) or any(a is not None and a.get('d') == content['d'] for a in args_))
+        if alg and (e.get('callee') or '').split('::')[-1] in ('copy', 'copy_n', 'copy_if', 'copy_backward', 'move_backward', 'transform', 'memcpy', 'memmove', 'strcpy', 'strncpy'):
+            # these write to their destination only: the last iterator argument (first for the C functions)
+            dest = args_[0] if (e.get('callee') or '').split('::')[-1] in ('memcpy', 'memmove', 'strcpy', 'strncpy') else \
+                ([a for a in args_ if a is not None and a.get('k') == 'call'] or [None])[-1]
+            alg = _iter_of_content(dest)
+        hit = (tgt is not None and tgt.get('d') == content['d']) or alg or \
               (e.get('k') == 'call' and (e.get('callee') or '').split('::')[-1] in ('swap', 'move', 'exchange') and any(a is not None and a.get('d') == content['d'] for a in args_))
         if hit and '&' in (content.get('cty') or '') and not (content.get('cty') or '').startswith('const '):
             S4.violation('create_scanner: content is only read', 'create_scanner modifies the file content it receives by reference (%s): the entry of the file table is changed, and a later include '
@@ -701,7 +724,10 @@ def c15(rep, tier):
     I2 = rep.rule('C15.I2', 'an include that is not followed by a quoted name is reported', floor=1)
     ev = err_pushes('EXPECTED_FILENAME')
     ok = False
-    if len(ev) == 1:
+    all_ev = ev
+    for ev in [[x] for x in all_ev]:      # one of the reports has to be the unconditional one (a further, defensive report elsewhere does not matter)
+        if ok:
+            break
         # the error must be recorded whenever (no token) or (token is not FNAME): the guard is their disjunction, taken
         conds = [(c, l) for c, l, cn in ev[0].g.guards_of(ev[0].ev)]
         def is_disj(c):
@@ -731,7 +757,12 @@ def c15(rep, tier):
             namevar = fr
             # the name is the token text without its quotes
             defs = M.defs(ev[0].fn).get(fr['d'], [])
-            txt = ' '.join(show(d[1]) for d in defs if d[1] is not None)
+            def shown(x):
+                try:
+                    return show(M.inline_value(ev[0].fn, x))       # named constants of the function folded in (quotes = 2)
+                except Exception:
+                    return show(x)
+            txt = ' '.join(shown(d[1]) for d in defs if d[1] is not None)
             # a helper that strips the quotes: its single return expression takes part
             for d in defs:
                 o = strip_conv(strip_copies(strip_casts(d[1]))) if d[1] is not None else None
@@ -752,6 +783,23 @@ def c15(rep, tier):
             ctx_ = show(cond)
             if any(in_files(x, namevar['name']) for x in walk_expr(cond)) or 'INCLUDE' in ctx_ or 'FNAME' in ctx_ or is_call(strip_casts(cond), '::empty') or \
                     mentions_eof_test(cond, status_vars(M, ev[0].fn)) or (getattr(cn, 'stmt', None) is not None and cn.stmt.get('k') in ('while', 'for', 'do')):
+                continue
+            # a guard whose other side reports an error of its own before going on is no way around a report
+            g_ = ev[0].g
+            other = [n for n in g_.nodes if n.kind == 'branch' and n.of is cn and isinstance(n.label, bool) and n.label != label]
+            def reports(n):
+                return any((is_call(x.e, '::push_back') or is_call(x.e, '::emplace_back')) and x.e.get('obj') is not None and 'errors' in show(x.e['obj']) for x in n.events)
+            silent = False
+            seen_, work_ = set(), list(other)
+            while work_ and not silent:
+                n = work_.pop()
+                if n.id in seen_ or reports(n):
+                    continue
+                seen_.add(n.id)
+                if n is g_.exit or (n.kind == 'cond' and n.stmt is not None and n.stmt.get('k') in ('while', 'for', 'do', 'rangefor')) or n is ev[0].ev.node:
+                    silent = True
+                work_.extend(n.succ)
+            if other and not silent:
                 continue
             extra_g.append(cond)
         if extra_g:
